@@ -235,6 +235,38 @@ MAPPED = {i: 0 for i in range(10)}
 MAPPED.update({10: 255, 11: 255})
 
 
+def std_mapped_idiom(fx, b, ip_expr, v4_of, keep6, keep4):
+    """The same decision written with std's Ipv6Addr::to_ipv4_mapped (exactly the ::ffff:a.b.c.d test, unlike to_ipv4):
+    V4 -> keep4; V6 and Some(ip) -> v4_of(ip); V6 and None -> keep6.  Returns (applies, ok)."""
+    call = "Ipv6Addr::to_ipv4_mapped(%s)" % ip_expr
+    ps = [p for p in paths(fx, b) if p.end == "return"]
+    if not any(p.calls(r"Ipv6Addr::to_ipv4_mapped$") for p in ps):
+        return False, False
+    seen = set()
+    for p in ps:
+        fam = None
+        opt = None
+        for a in p.atoms:
+            ab = sym.atom_bool(a)
+            if ab and show(strip_after(ab[0])) in ("Option::is_some(%s)" % call, "Option::is_none(%s)" % call):
+                opt = "Some" if ab[1] == ("is_some" in show(strip_after(ab[0]))) else "None"
+                continue
+            v = sym.atom_variant(fx, a)
+            if not (v and v[2]):
+                continue
+            d = show(strip_after(v[0]))
+            if d == call:
+                opt = v[1][0]
+            elif v[1][0] in ("V4", "V6"):
+                fam = v[1][0]
+        r = show(strip_after(p.ret))
+        want = keep4 if fam == "V4" else v4_of("(%s as Some).0" % call) if (fam, opt) == ("V6", "Some") else keep6 if (fam, opt) == ("V6", "None") else None
+        if r != want:
+            return True, False
+        seen.add((fam, opt))
+    return True, seen == {("V4", None), ("V6", "Some"), ("V6", "None")}
+
+
 @PROP.rule("R-C03-4", floor=4, doc="decision tables: CanonicalSocketAddr::new and IpVersion::canonical_from_ip use exactly the ::ffff:a.b.c.d pattern")
 def canonical(fx):
     b = fx.fn(CSA + "::new")
@@ -243,7 +275,14 @@ def canonical(fx):
     v4 = "CanonicalSocketAddr::CanonicalSocketAddr{0: SocketAddr::V4{0: SocketAddrV4::new(Ipv4Addr::new(%s[12], %s[13], %s[14], %s[15]), SocketAddrV6::port((addr as V6).0))}}" % ((oct_,) * 4)
     keep6 = "CanonicalSocketAddr::CanonicalSocketAddr{0: <T as Into>::into((addr as V6).0)}"
     keep4 = "CanonicalSocketAddr::CanonicalSocketAddr{0: addr}"
-    okm = set(outs) == {v4, keep6, keep4}
+    alt, alt_ok = std_mapped_idiom(
+        fx, b, "SocketAddrV6::ip((addr as V6).0)",
+        lambda ip: "CanonicalSocketAddr::CanonicalSocketAddr{0: SocketAddr::V4{0: SocketAddrV4::new(%s, SocketAddrV6::port((addr as V6).0))}}" % ip, keep6, keep4)
+    if alt:
+        yield ob("R-C03-4", "table#CanonicalSocketAddr::new", alt_ok, b, None,
+                 "written with Ipv6Addr::to_ipv4_mapped (std's ::ffff:a.b.c.d test): V4 kept, mapped V6 -> V4 with the same port, other V6 kept: %s" % alt_ok, {"idiom": "to_ipv4_mapped"})
+        outs = None
+    okm = outs is not None and set(outs) == {v4, keep6, keep4}
     okm = okm and outs.get(v4) == [("V6", MAPPED)] and outs.get(keep4) == [("V4", {})]
     # every other V6 path fails exactly one test of the pattern after passing the previous ones
     if okm:
@@ -259,11 +298,15 @@ def canonical(fx):
                 okm = False
             seen.append(i)
         okm = okm and sorted(seen) == idx
-    yield ob("R-C03-4", "table#CanonicalSocketAddr::new", okm, b, None,
-             "outcomes: %s" % {k[:70]: (len(v), v[0][1] if len(v) == 1 else "...") for k, v in outs.items()},
-             {"mapped_pattern": outs.get(v4, [None])[0][1] if outs.get(v4) else None, "outcomes": sorted(k[:120] for k in outs)})
+    if outs is not None:
+        yield ob("R-C03-4", "table#CanonicalSocketAddr::new", okm, b, None,
+                 "outcomes: %s" % {k[:70]: (len(v), v[0][1] if len(v) == 1 else "...") for k, v in outs.items()},
+                 {"mapped_pattern": outs.get(v4, [None])[0][1] if outs.get(v4) else None, "outcomes": sorted(k[:120] for k in outs)})
     b2 = fx.fn("aquatic_ws::common::IpVersion::canonical_from_ip")
-    o2 = mapped_pattern(fx, b2, "Ipv6Addr::octets((ip as V6).0)")
+    alt, alt_ok = std_mapped_idiom(fx, b2, "(ip as V6).0", lambda ip: "IpVersion::V4{}", "IpVersion::V6{}", "IpVersion::V4{}")
+    if alt:
+        yield ob("R-C03-4", "table#IpVersion::canonical_from_ip", alt_ok, b2, None, "written with Ipv6Addr::to_ipv4_mapped: %s" % alt_ok, {"idiom": "to_ipv4_mapped"})
+    o2 = {} if alt else mapped_pattern(fx, b2, "Ipv6Addr::octets((ip as V6).0)")
     ok2 = set(o2) == {"IpVersion::V4{}", "IpVersion::V6{}"}
     if ok2:
         v4s = sorted(o2["IpVersion::V4{}"], key=lambda x: str(x))
@@ -276,8 +319,9 @@ def canonical(fx):
             else:
                 seen.append(failing[0])
         ok2 = ok2 and sorted(seen) == sorted(MAPPED)
-    yield ob("R-C03-4", "table#IpVersion::canonical_from_ip", ok2, b2, None, "outcomes: %s" % {k: len(v) for k, v in o2.items()},
-             {"mapped_pattern": [t for f, t in o2.get("IpVersion::V4{}", []) if f == "V6"]})
+    if not alt:
+        yield ob("R-C03-4", "table#IpVersion::canonical_from_ip", ok2, b2, None, "outcomes: %s" % {k: len(v) for k, v in o2.items()},
+                 {"mapped_pattern": [t for f, t in o2.get("IpVersion::V4{}", []) if f == "V6"]})
     # accessors do not un-canonicalise
     g = fx.fn(CSA + "::get")
     rets = [show(p.ret) for p in paths(fx, g) if p.end == "return"]
